@@ -200,6 +200,11 @@ def check_ops(case, ctx):
             x = as_real_array(ctx, out.value, (4,), route=rr, what="quaternion")
             if x is not None:
                 unit_clause(ctx, rr, x)
+    out = call(lambda: np.asarray(O_.q_random(size=n), float))
+    if ctx.returned(out, clause="no-exception[q_random(size=)]", route="random_attitudes"):
+        x = as_real_array(ctx, out.value, (n, 4) if n > 1 else out.value.shape, route="random_attitudes", what="random quaternions")
+        if x is not None:
+            unit_clause(ctx, "random_attitudes", x.reshape(-1, 4))
     out = call(lambda: np.asarray(ahrs.Quaternion(random=True)))
     if ctx.returned(out, route="Quaternion(random=True)"):
         x = as_real_array(ctx, out.value, (4,), route="Quaternion(random=True)", what="quaternion")
